@@ -9,8 +9,25 @@ ANC_TYPES = [('suite', 'file_input'), ('funcdef', 'classdef', 'lambdef'), ('erro
 
 
 def rec_tokens(items, opts):
+    """every 5th trace is recorded right after another token stream was abandoned half-way (a caller that stops
+    iterating, e.g. a strict parse that raised): a token stream must not depend on what was tokenized before"""
+    import itertools
+    from parso.python.tokenize import tokenize as _tokenize
+    from parso.utils import parse_version_string as _pvs
     out = []
-    for tid, text, ver, origin in items:
+    prev = 'class C:\n    def f(self):\n        if x:\n            return (\n'
+    for n, (tid, text, ver, origin) in enumerate(items):
+        if n % 5 == 0:
+            try:
+                gen = _tokenize(prev, version_info=_pvs(ver))
+                k = max(1, len(prev) // 6)
+                for _ in itertools.islice(gen, k):
+                    pass
+                del gen
+            except Exception:  # noqa
+                pass
+        if len(text) > 8 and '\n' in text:
+            prev = text
         t = record.token_trace(tid, text, ver)
         t['origin'] = origin
         t['nontrivial'] = len(t['toks']) > 1
